@@ -4,6 +4,7 @@ package main
 // real application, and printer of both the history and the observations as Coq terms.
 
 import (
+	"os"
 	"crypto/sha256"
 	"encoding/hex"
 	"encoding/json"
@@ -123,6 +124,14 @@ type HGenesis struct {
 type History struct {
 	Genesis HGenesis `json:"genesis"`
 	Events  []Event  `json:"events"`
+	Focal   uint64   `json:"focal,omitempty"` // isolation profile: the tenant whose view is compared (0 = tenant 1)
+}
+
+func (h History) FocalTenant() uint64 {
+	if h.Focal == 0 {
+		return 1
+	}
+	return h.Focal
 }
 
 func (h History) JSON() string {
@@ -457,6 +466,25 @@ func (e *Exec) applyEnv(v Env) (string, error) {
 		}
 		err := c.App.BankKeeper.SendCoins(c.Ctx(), c.Accts[v.From].Addr, to, sdk.NewCoins(sdk.NewCoin(v.Denom, amt)))
 		return coq, err
+	case "pool_fund":
+		// an inflow into the oracle reward pool of arbitrary size, through the call the fee decorator uses
+		// (SendCoinsFromAccountToModule; a plain SendCoins would create a base account at the module address)
+		amt, _ := sdk.NewIntFromString(v.Amount)
+		if !amt.IsPositive() {
+			return "", nil
+		}
+		from := c.Accts[v.From].Addr
+		if c.App.BankKeeper.GetBalance(c.Ctx(), from, v.Denom).Amount.LT(amt) {
+			return "", nil
+		}
+		pool := authtypes.NewModuleAddress(oracletypes.ModuleName)
+		if err := c.App.BankKeeper.SendCoinsFromAccountToModule(c.Ctx(), from, oracletypes.ModuleName, sdk.NewCoins(sdk.NewCoin(v.Denom, amt))); err != nil {
+			return "", err
+		}
+		// in the model the oracle's pool grows; the sender pays in a base denomination that the settlement model
+		// does not hold among its balances (only tenant denominations are compared)
+		_ = pool
+		return fmt.Sprintf("EO (EnvPoolFund %s %s)", cStr(v.Denom), cZ(amt.BigInt())), nil
 	case "nft_mint":
 		tok := e.nextTok
 		if err := c.MintNFT(e.nftOwner, c.NftAddr, c.Accts[v.To].Hex()); err != nil {
@@ -582,6 +610,9 @@ func (e *Exec) Run() []Obs {
 			}
 			r := c.Deliver(ts)
 			o := Obs{Kind: "tx", Class: r.Class(), Log: r.Log, Gas: r.GasUsed}
+			if r.Class() == "panic" && os.Getenv("VERIF_DEBUG") != "" {
+				fmt.Fprintf(os.Stderr, "TX-PANIC %s\n", r.Log)
+			}
 			if r.Class() == "ok" {
 				for _, x := range r.Events {
 					switch {
@@ -869,7 +900,7 @@ var _ = settlementkeeper.SettlementKeeper{}
 // treasury addresses are the same) and the whole environment except bank sends to other treasuries;
 // everything else the other tenants do is removed.
 func FilterForTenant(h History, tid uint64) History {
-	out := History{Genesis: h.Genesis}
+	out := History{Genesis: h.Genesis, Focal: h.Focal}
 	for _, ev := range h.Events {
 		switch ev.Kind {
 		case "tx":
